@@ -91,8 +91,8 @@ type failRec struct {
 type batch struct {
 	c        *mon.Case
 	r        *mon.Run
-	src      string // "hook" or "newkeypair"
-	rng      *rand.Rand
+	src      string     // "hook" or "newkeypair"
+	rng      *rand.Rand // oracle-side draws only
 	hist     [8]int
 	okPrivs  int
 	sel      [8][8]int // low 3 key bits -> coset index -> count
@@ -103,8 +103,11 @@ type batch struct {
 	sampled  map[string]bool
 }
 
+// newBatch forks a generator for the oracle's own draws (peer scalars, damaged
+// representatives) off the workload generator, so that the sequence of
+// generated private keys does not depend on how the code under test answers.
 func newBatch(c *mon.Case, r *mon.Run, src string, rng *rand.Rand) *batch {
-	return &batch{c: c, r: r, src: src, rng: rng, decCache: map[[32]byte][32]byte{}, sampled: map[string]bool{}}
+	return &batch{c: c, r: r, src: src, rng: mon.NewRand(rng.Uint64()), decCache: map[[32]byte][32]byte{}, sampled: map[string]bool{}}
 }
 
 var structuredPeers = func() [][]byte {
